@@ -275,8 +275,20 @@ def fam_events(rng, tier):
     return out
 
 
+def fam_repeat(rng, tier):
+    """C10: convergence, no spam, commands once, independence from what the instance processed before."""
+    out = []
+    n = 24 if tier == 'thorough' else 6
+    for i in range(n):
+        casc = rng.choice(['B3', 'D3s', 'A2', 'E3m'])
+        mode = list(MODES)[i % 3]
+        out.append(dict(id='repeat/%d/%s/%s' % (i, casc, mode), world=world(casc, mode),
+                        steps=[{"a": "repeat_script", "seed": rng.randrange(10**6)}], dyn=True))
+    return out
+
+
 FAMILIES = dict(lifecycle=fam_lifecycle, qstatus=fam_queue_status, drift=fam_skip_drift,
-                holds=fam_holds, reset=fam_reset, admin=fam_admin, events=fam_events)
+                holds=fam_holds, reset=fam_reset, admin=fam_admin, events=fam_events, repeat=fam_repeat)
 
 
 def all_scenarios(seed, tier, only=None):
